@@ -164,7 +164,7 @@ fn table(max_len: usize) -> Vec<VerReq> {
 
 pub fn run(ctx: &mut Ctx) -> Vec<Violation> {
     install_logger(log::LevelFilter::Off);
-    let max_len = ctx.tier.pick(5, 6);
+    let max_len = 6; // the full table is cheap enough for both tiers
     let tab = table(max_len);
     let chunks: Vec<Chunk> = tab.chunks(48).map(|c| Chunk { reqs: c.to_vec() }).collect();
     let v = run_enum(ctx, "table", chunks.len() as u64, |i| chunks[i as usize].clone(), |ctx, c| check_chunk(ctx, c));
